@@ -17,7 +17,7 @@ FLAVOURS = {
     "plain": ["-O2"],
     "hook": ["-O1", "-g", "-D%s=1" % GUARD],
     "asan": ["-O1", "-g", "-fno-omit-frame-pointer",
-             "-fsanitize=address,undefined", "-D%s=1" % GUARD],
+             "-fsanitize=address,undefined", "-fsanitize-recover=all", "-D%s=1" % GUARD],
     "asan-gate": ["-O1", "-g", "-fno-omit-frame-pointer",
                   "-fsanitize=address,undefined", "-fno-sanitize-recover=all",
                   "-D%s=1" % GUARD],
